@@ -4,11 +4,11 @@ import os
 import numpy as np
 import torch
 
-from harness import coqio, cparse, nets, compiled, asan
+from harness import coqio, cparse, nets, compiled, asan, gennet
 from harness.common import Check
 from translate import gatecode as t_gc, wrapper as t_wr
 
-THEOREMS = ["C11_safe_dense", "C11_safe_check_sound", "C11_deterministic", "C11_wrapper_safe", "C11_group_extent"]
+THEOREMS = ["C11_safe_dense", "C11_safe_net", "C11_safe_check_sound", "C11_deterministic", "C11_wrapper_safe", "C11_group_extent"]
 TRUSTED = [
     "Coq 8.16.1 kernel/coqc; vm_compute evaluates the verified checker safe_check on each parsed program; theorems closed under the global context",
     "strict parser harness/cparse.py maps the emitted text to the modelled fragment (scalar const temporaries become cells of one pseudo-array)",
@@ -105,6 +105,9 @@ def run(ck: Check):
                 ck.broke("correspondence", "python mirror vs Model/CLang.exec", f"case {idx}: kernel {ok}, mirror {mirror_ok}")
             if not ok and mirror_ok:
                 ck.disagree("safe_check rejects the generated program", case, signature={"what": "unsafe-access", "kind": case["kind"]})
+    # conv/pool stacks: the parsed text is the proved generator model of its architecture (C11_safe_net applies)
+    gennet.check_generator(ck, [(idx, spec, p, dict(case, name=case['kind'] + str(idx))) for idx, p, case, _, _, spec, _, _ in items
+                                 if case['kind'] != 'dense'], label='c11gen')
     # sanitizer + optimisation-level independence
     sel = items[:: max(1, len(items) // (6 if ck.tier == "quick" else 30))]
     for idx, p, case, mirror_ok, text, spec, n_in, n_out in sel:
